@@ -934,6 +934,9 @@ def run(ctx):
                       'angle_class_changed', 'not_a_perpendicular_family'):
             raise MachineryError(f'harness and specification disagree ({clause}) on event {ev}')
         ctx.violation(_key_for(ev, clause), {'event': ev})
+    # growth module (DESIGN §8): the scene instrument_view describes; findings are not C03 violations
+    from .. import lib_growth_instview
+    ctx.run_growth(lib_growth_instview.run, 'lib_growth_instview')
 
 
 META = {
